@@ -370,11 +370,11 @@ func runRefB(conn net.Conn, c *caseA, res *sideRes) {
 }
 
 type outcomeA struct {
-	A, B          *sideRes
-	Hang          bool
-	abData        []byte
-	baData        []byte
-	abW, baW      []int
+	A, B           *sideRes
+	Hang           bool
+	abData         []byte
+	baData         []byte
+	abW, baW       []int
 	firstB, firstA int
 }
 
@@ -487,7 +487,6 @@ func (k *checker) violate(seq int64, key, desc string, replay any) {
 		v.seq, v.desc, v.rep = seq, desc, replay
 	}
 }
-
 
 // flush hands the collected violations to the report, simplest (earliest enumerated) case per key.
 func (k *checker) flush() {
